@@ -186,10 +186,10 @@ package litefs
 // error, and a failed restore, end the loop with an error; the position map is updated only after a successful
 // upload or a successful restore.
 //@ pred subOK(c *ChangeSetSubscriber, s *Store) = c != nil && c.dirtySet != nil && c.store == s
-//@ func (s *Store) DBs [C14]
+//@ func (s *Store) DBs [C14,C20]
 //@   requires  s != nil
 //@   loop 1 invariant alive(a) && (old(noNilDBs(s)) ==> noNilDBs(s) && (forall i int :: 0 <= i && i < len(a) ==> a[i] != nil))
-//@   proves    old(noNilDBs(s)) ==> (forall i int :: 0 <= i && i < len(result) ==> result[i] != nil)
+//@   ensures   old(noNilDBs(s)) ==> (forall i int :: 0 <= i && i < len(result) ==> result[i] != nil)
 //@   nopanic
 
 //@ func (s *ChangeSetSubscriber) DirtySet [C14]
